@@ -117,7 +117,27 @@ Proof.
   rewrite json_wellformed by (apply data_wf; exact Hd). split; [reflexivity|].
   rewrite codec_id. apply (of_tree_tree_of fmt pf pf_fmt fmt_e); assumption.
 Qed.
+
+(* encodings are values: in any history that keeps several encodings alive and decodes them in any
+   order, each decodes to its own original (the model is functional; that the implementation's
+   encodings do not share storage is what the interleaved-history stream of the harness observes) *)
+Theorem history_msgpack_roundtrip : forall vs,
+  Forall (fun v => data fmt v = true /\ no_reserved_keys v = true) vs ->
+  map (fun v => match msgpack fmt mp_enc v with Some b => unmsgpack pf mp_dec b | None => Crash end) vs
+  = map (fun v => Ok (norm v)) vs.
+Proof.
+  intros vs H. apply map_ext_in. intros v Hv. rewrite Forall_forall in H. destruct (H v Hv) as [Hd Hr].
+  destruct (msgpack_roundtrip v Hd Hr) as [b [E1 E2]]. rewrite E1. exact E2.
+Qed.
 End MsgpackOracle.
+
+Theorem history_json_roundtrip : forall vs,
+  Forall (fun v => data fmt v = true /\ no_reserved_keys v = true) vs ->
+  map (fun v => unjson pf (to_json fmt v)) vs = map (fun v => Ok (norm v)) vs.
+Proof.
+  intros vs H. apply map_ext_in. intros v Hv. rewrite Forall_forall in H. destruct (H v Hv) as [Hd Hr].
+  apply unjson_json; assumption.
+Qed.
 End Oracles.
 
 (* ---- what norm changes: key kinds and the printing flag only ---- *)
